@@ -41,7 +41,16 @@ RULE = ("A case is an interval [a,b] (a from a fixed list of integers/dyadic/irr
         "(boundary T/F, do_nnls T/F, max_degree 1-5, split_up T/F), hierarchical (Lagrange p 1-6, B-spline p 1,3,5 with boundary; "
         "B-spline boundary-off modified for the constant clause). Non-trivial = some dimension has >= 5 points and two "
         "leaves of different width. Distinct = distinct case dict. Class counters show the 3/4/5-point special cases, "
-        "even/odd point counts, weighted and graded trees, reported high-order degrees, d=2.")
+        "even/odd point counts, weighted and graded trees, reported high-order degrees, d=2. Sub-check large (trapezoidal "
+        "family, all three modes): LARGE refinement-tree grids with more than 2^15 and up to ~1.4e5 tensor points - d=1 "
+        "complete dyadic trees of depth 15-16 plus 0-4 extra (also weighted) splits, one-sided chains of 1-35 splits "
+        "towards an end with a complete subtree of depth 15-16 in one of the leaves; d=2,3 tensor grids whose complete "
+        "depths sum to 15-16 (e.g. 513x95, 257x257, 33^3), each dimension complete or one-sided; fixed cases plus a few "
+        "generated ones. One vectorised, 4-component integrand (1, a random linear function, a smooth function, a table "
+        "of random nodal values) goes through grid.integrate and every component must equal (1e-10 relative to sum "
+        "|w||f| + vol*max|f|) the exact integral of the reference piecewise-linear interpolant (numpy, dimension by "
+        "dimension), the sum of the tensor product of grid.weights times the nodal values, and for constants / linear "
+        "functions the analytic integral (boundary, modified). Non-trivial = more than 2^15 tensor points.")
 ASSUMPTIONS = [
     "grids are fed as SpatiallyAdaptiveSingleDimensions2 feeds them: python lists of sorted floats incl. both domain ends, "
     "integer tree levels (ends 0, exactly one level-1 point, child level = max(neighbour levels)+1), at least 3 points",
@@ -78,6 +87,10 @@ ASSUMPTIONS = [
     "discrete measure are negative), GlobalBSplineGrid(chebyshev=True) (no caller; its own get_mid_point gives unsorted "
     "points for [a,b] != [0,1]), GlobalSimpsonGrid (TypeError on every even point count; boundary=False loses mass), "
     "GlobalRombergGrid (property C11), the *Weighted classes (need a UQ operation, property C15)",
+    "sub-check large covers GlobalTrapezoidalGrid only: the high-order / Lagrange / B-spline global grids need minutes "
+    "for a single grid of > 2^15 points (measured: no result within 10 min for 3 grids), so large grids of those "
+    "families are not generated; the integrand is a Function subclass with eval_vectorized (the documented way to "
+    "vectorise, cf. the Function classes of the library)",
     "GlobalBSplineGrid trees are generated with tree level <= 11 (quick) / 13 (thorough): the class materialises the "
     "complete dyadic hierarchy (2^level entries per level), deeper trees are infeasible for the library itself; the "
     "other grids see levels up to 40/60",
@@ -954,6 +967,249 @@ def run_hierarchical(case):
 
 
 # ----------------------------------------------------------------------------------------------------------------
+# sub-check 4: large refinement-tree grids through the public integrate path (trapezoidal family)
+# ----------------------------------------------------------------------------------------------------------------
+def build_big_tree(a, b, ops):
+    """ops: ['split', leaf, ratio] (as build_tree) | ['fill', leaf, depth] (complete dyadic subtree of `depth` levels
+    inside leaf `leaf`; levels continue below max(neighbour levels)). -> (points, levels) python lists."""
+    import numpy as np
+    pts, lev = [float(a), float(b)], [0, 0]
+    for op in ops:
+        i = int(op[1]) % (len(pts) - 1)
+        if op[0] == "split":
+            r = min(0.8, max(0.2, float(op[2])))
+            m = pts[i] + (pts[i + 1] - pts[i]) * r
+            if pts[i] < m < pts[i + 1]:
+                pts.insert(i + 1, m)
+                lev.insert(i + 1, max(lev[i], lev[i + 1]) + 1)
+        elif op[0] == "fill":
+            depth = int(op[2])
+            n = 2 ** depth
+            j = np.arange(1, n)
+            x = pts[i] + (pts[i + 1] - pts[i]) * (j / n)
+            if not (pts[i] < x[0] and x[-1] < pts[i + 1] and np.all(np.diff(x) > 0)):
+                continue        # leaf too small for this subtree in floating point
+            tz = np.log2(j & -j).astype(int)
+            l0 = max(lev[i], lev[i + 1])
+            pts[i + 1:i + 1] = [float(t) for t in x]
+            lev[i + 1:i + 1] = [int(l0 + depth - t) for t in tz]
+        else:
+            raise ValueError(op)
+    return pts, lev
+
+
+def np_interp_contract(pts, V, mode):
+    """V: nodal values along axis 0 (all nodes for 'boundary', interior nodes otherwise). Returns the exact integral
+    over [pts[0], pts[-1]] of the reference interpolant along axis 0 (same definition as ref_interpolant_integral)."""
+    import numpy as np
+    p = np.asarray(pts, dtype=float)
+    V = np.asarray(V, dtype=float)
+    if mode == "boundary":
+        Y = V
+    elif mode == "noboundary":
+        z = np.zeros((1,) + V.shape[1:])
+        Y = np.concatenate([z, V, z], axis=0)
+    elif mode == "modified":
+        if V.shape[0] == 1:
+            Y = np.concatenate([V, V, V], axis=0)
+        else:
+            sl = (V[1] - V[0]) / (p[2] - p[1])
+            sr = (V[-1] - V[-2]) / (p[-2] - p[-3])
+            Y = np.concatenate([(V[0] + sl * (p[0] - p[1]))[None], V, (V[-1] + sr * (p[-1] - p[-2]))[None]], axis=0)
+    else:
+        raise ValueError(mode)
+    assert Y.shape[0] == len(p)
+    return np.tensordot(np.diff(p), 0.5 * (Y[:-1] + Y[1:]), axes=(0, 0))
+
+
+def _big_function(xs, a, b, rng):
+    """vector valued, vectorised integrand with 4 components: 1, a linear function, a smooth function, a table of random
+    nodal values (looked up by the exact grid floats). Returns (Function object, nodal value array [*shape, 4], lin)."""
+    import numpy as np
+    from sparseSpACE.Function import Function
+    dim = len(xs)
+    a_, b_ = np.array(a, dtype=float), np.array(b, dtype=float)
+    c0 = float(rng.uniform(-2, 2))
+    c = rng.uniform(-3, 3, size=dim)
+    k = rng.uniform(0.5, 6.0, size=dim)
+    ph = float(rng.uniform(0, 6.0))
+    shape = [len(x) for x in xs]
+    table = rng.normal(size=shape)
+    xa = [np.asarray(x, dtype=float) for x in xs]
+
+    def values(X):
+        X = np.asarray(X, dtype=float).reshape(-1, dim)
+        T = (X - a_) / (b_ - a_)
+        res = np.empty((X.shape[0], 4))
+        res[:, 0] = 1.0
+        res[:, 1] = c0 + T @ c
+        res[:, 2] = np.cos(T @ k + ph) + np.exp(-T[:, 0])
+        idx = [np.clip(np.searchsorted(xa[d], X[:, d]), 0, shape[d] - 1) for d in range(dim)]
+        ok = np.ones(X.shape[0], dtype=bool)
+        for d in range(dim):
+            ok &= xa[d][idx[d]] == X[:, d]
+        res[:, 3] = np.where(ok, table[tuple(idx)], np.nan)      # evaluated off the grid -> nan -> reported
+        return res
+
+    class _F(Function):
+        def output_length(self):
+            return 4
+
+        def eval(self, x):
+            return values([x])[0]
+
+        def eval_vectorized(self, X):
+            return values(X)
+
+    mesh = np.stack(np.meshgrid(*xa, indexing="ij"), axis=-1).reshape(-1, dim)
+    return _F(), values(mesh).reshape(shape + [4]), (c0, c)
+
+
+def run_large(case):
+    import numpy as np
+    from sparseSpACE.Grid import GlobalTrapezoidalGrid
+    out = Outcome()
+    sub = "large"
+    mode = case["mode"]
+    boundary = mode == "boundary"
+    a = [float(t) for t in case["a"]]
+    b = [a[d] + float(case["len"][d]) for d in range(len(a))]
+    dim = len(a)
+    rng = np.random.default_rng(int(case["rng"]))
+    trees = [build_big_tree(a[d], b[d], case["trees"][d]) for d in range(dim)]
+    xs = [t[0] if boundary else t[0][1:-1] for t in trees]
+    shape = [len(x) for x in xs]
+    N = int(np.prod(shape))
+    out.cls("mode=" + mode, "d=%d" % dim, "shape=" + case.get("shape", "?"))
+    out.cls("N>2^16" if N > 2 ** 16 else "N>2^15" if N > 2 ** 15 else "N<=2^15(control)")
+    out.cls("N-odd" if N % 2 else "N-even")
+    for pts, lev in trees:
+        w = np.diff(pts)
+        if w.max() > 1000 * w.min():
+            out.cls("strongly-graded(>1e3)")
+        if any(op[0] == "split" and abs(float(op[2]) - 0.5) > 1e-12 for tr in case["trees"] for op in tr):
+            out.cls("weighted-midpoints")
+    out.nontrivial = N > 2 ** 15
+    out.info["max_tensor_points"] = N
+    g = GlobalTrapezoidalGrid(a, b, boundary=boundary, modified_basis=(mode == "modified"))
+    _silent(g.set_grid, [list(t[0]) for t in trees], [list(t[1]) for t in trees])
+    if [len(t) for t in g.weights] != shape:
+        out.bad(sub + "/structure/weight-count", "weights per dimension %s, nodes %s" % ([len(t) for t in g.weights], shape))
+        return out
+    f, vals, (c0, c) = _big_function(xs, a, b, rng)
+    got = np.asarray(_silent(g.integrate, f, [max(t[1]) for t in trees], a, b), dtype=float).reshape(-1)
+    if got.shape != (4,):
+        out.bad(sub + "/structure/integrate-output-length", "%s results for 4 components" % (got.shape,))
+        return out
+    # the same integrand, scalar valued (component 1 = linear function), second call on the same grid object
+    ref_interp, ref_w, sc = vals, vals, np.abs(vals)
+    for d in range(dim):
+        wd = np.asarray(g.weights[d], dtype=float)
+        ref_interp = np_interp_contract(trees[d][0], ref_interp, mode)      # exact integral of the reference interpolant
+        ref_w = np.tensordot(wd, ref_w, axes=(0, 0))                        # sum of (tensor weights) * values
+        sc = np.tensordot(np.abs(wd), sc, axes=(0, 0))
+    vol = float(np.prod([b[d] - a[d] for d in range(dim)]))
+    sc = sc + vol * np.abs(vals).reshape(-1, 4).max(axis=0)
+    names = ["constant", "linear", "smooth", "nodal-table"]
+    exact = [vol, vol * (c0 + 0.5 * float(np.sum(c))), None, None]
+    lin_ok = boundary or (mode == "modified" and min(shape) >= 2)
+    rel = 0.0
+    for i in range(4):
+        # tolerance 1e-10 relative to sum |w||f| + vol*max|f| (rounding seen on the unchanged tree < 1e-14)
+        tol = 1e-10 * float(sc[i])
+        e1, e2 = abs(got[i] - float(ref_interp[i])), abs(got[i] - float(ref_w[i]))
+        rel = max(rel, (e1 if e1 == e1 else 1.0) / float(sc[i]), (e2 if e2 == e2 else 1.0) / float(sc[i]))
+        if not e2 <= tol:
+            out.bad("%s/integrate-vs-sum-of-weights-times-values/%s" % (sub, mode),
+                    "%s: integrate() = %r but sum of grid.weights (tensor) * f = %r; points per dim %s (N=%d)"
+                    % (names[i], float(got[i]), float(ref_w[i]), shape, N))
+            break
+        if not e1 <= tol:
+            out.bad("%s/integrate-vs-interpolant-integral/%s" % (sub, mode),
+                    "%s: integrate() = %r, exact integral of the piecewise-linear interpolant %r; points per dim %s (N=%d)"
+                    % (names[i], float(got[i]), float(ref_interp[i]), shape, N))
+            break
+        if exact[i] is not None and lin_ok and not abs(got[i] - exact[i]) <= tol:
+            out.bad("%s/%s-exactness/%s" % (sub, names[i], mode),
+                    "integrate() of a %s function = %r, exact %r; points per dim %s (N=%d)"
+                    % (names[i], float(got[i]), exact[i], shape, N))
+            break
+    out.info["rel_err_large"] = rel
+    return out
+
+
+def _chain(n, side):
+    """n splits of the left-most / right-most leaf: ['split', 0, .5] resp. leaf index -1 (== last leaf modulo count)"""
+    return [["split", 0 if side == "left" else -1, 0.5] for _ in range(n)]
+
+
+def large_fixed():
+    cases = []
+    for mode in ("boundary", "noboundary", "modified"):
+        cases.append(dict(a=[0.0], len=[1.0], mode=mode, shape="1d-complete", rng=1, trees=[[["fill", 0, 15]] + (
+            [] if mode == "boundary" else [["split", 0, 0.5], ["split", 7, 0.5], ["split", 100, 0.5]])]))
+        cases.append(dict(a=[-1.0, 0.5], len=[3.0, 1.0], mode=mode, shape="2d", rng=2,
+                          trees=[[["fill", 0, 9]], _chain(30, "left") + [["fill", -1, 6]]]))
+    cases.append(dict(a=[2.0], len=[0.5], mode="boundary", shape="1d-complete", rng=3,
+                      trees=[[["fill", 0, 15], ["split", 5, 0.5], ["split", 777, 0.3], ["split", 20000, 0.5]]]))
+    cases.append(dict(a=[0.0], len=[1.0], mode="boundary", shape="1d-complete", rng=4, trees=[[["fill", 0, 16], ["split", 3, 0.5]]]))
+    cases.append(dict(a=[-3.0], len=[9.0], mode="boundary", shape="1d-onesided", rng=5,
+                      trees=[_chain(25, "left") + [["fill", -1, 15], ["fill", 3, 10]]]))
+    cases.append(dict(a=[0.25], len=[2.0], mode="modified", shape="1d-onesided", rng=6,
+                      trees=[_chain(20, "right") + [["fill", 0, 15], ["split", 100, 0.7]]]))
+    cases.append(dict(a=[0.0, 0.0], len=[1.0, 2.0], mode="boundary", shape="2d", rng=7,
+                      trees=[[["fill", 0, 8]], [["fill", 0, 8]]]))
+    cases.append(dict(a=[0.0, 0.0], len=[1.0, 2.0], mode="noboundary", shape="2d", rng=8,
+                      trees=[[["fill", 0, 8], ["split", 9, 0.5]], [["fill", 0, 8], ["split", 0, 0.5], ["split", 0, 0.5]]]))
+    cases.append(dict(a=[0.0, 1.0, -1.0], len=[1.0, 1.0, 2.0], mode="boundary", shape="3d", rng=9,
+                      trees=[[["fill", 0, 5]], [["fill", 0, 5]], [["fill", 0, 5]]]))
+    cases.append(dict(a=[-1.0, 0.5], len=[3.0, 1.0], mode="boundary", shape="2d", rng=10,       # small control
+                      trees=[[["fill", 0, 4]], _chain(4, "left") + [["fill", -1, 1]]]))
+    return cases
+
+
+def large_strategy(tier):
+    @st.composite
+    def s(draw):
+        dim = draw(st.sampled_from([1, 1, 2, 2, 2, 3]))
+        mode = draw(st.sampled_from(["boundary", "boundary", "noboundary", "modified"]))
+        # sum of the complete depths: > 2^15 tensor points by construction (interior points only: one level more)
+        total = draw(st.sampled_from([15, 15, 16])) if mode == "boundary" else 16
+        if dim == 1:
+            depths = [total]
+        elif dim == 2:
+            k0 = draw(st.integers(3, total - 3))
+            depths = [k0, total - k0]
+        else:
+            k0 = draw(st.integers(3, 7))
+            k1 = draw(st.integers(3, total - k0 - 3))
+            depths = [k0, k1, total - k0 - k1]
+        trees, shapes = [], []
+        for d in range(dim):
+            k = depths[d]
+            ops = []
+            kind = draw(st.sampled_from(["complete", "onesided", "onesided"]))
+            if kind == "onesided":
+                n = draw(st.integers(1, min(35, max(1, 2 ** (k - 2)))))
+                side = draw(st.sampled_from(["left", "right"]))
+                ops += _chain(n, side)
+                ops.append(["fill", draw(st.integers(0, n)), k])
+            else:
+                ops.append(["fill", 0, k])
+            for _ in range(draw(st.integers(0, 4))):
+                ops.append(["split", draw(st.integers(0, 2 ** k + 40)),
+                            draw(st.sampled_from([0.5, 0.5, 0.5, 0.3, 0.7, 0.2, 0.6180339887498949]))])
+            trees.append(ops)
+            shapes.append(kind)
+        return dict(a=[draw(st.sampled_from(_A)) for _ in range(dim)], len=[draw(st.sampled_from(_LEN)) for _ in range(dim)],
+                    mode=mode,
+                    shape="%dd-%s" % (dim, "onesided" if "onesided" in shapes else "complete"),
+                    trees=trees, rng=draw(st.integers(0, 2 ** 31 - 1)))
+    return s()
+
+
+
+# ----------------------------------------------------------------------------------------------------------------
 # strategies
 # ----------------------------------------------------------------------------------------------------------------
 @st.composite
@@ -1318,4 +1574,6 @@ SUBS = [
         budget_s=dict(quick=17, thorough=170), fixed_cases=highorder_fixed),
     Sub("hierarchical", hierarchical_strategy, run_hierarchical, dict(quick=4000, thorough=32000),
         budget_s=dict(quick=18, thorough=200)),
+    Sub("large", large_strategy, run_large, dict(quick=64, thorough=640),
+        budget_s=dict(quick=12, thorough=100), fixed_cases=large_fixed),
 ]
